@@ -146,9 +146,20 @@ def cmdSeqLookup : P String := do
   pEnd
   pure s!"ok {showList (fun u => showOpt toString (I.varIndex u)) tups} | {showList (fun k => showOpt showSTup (I.varTuple k)) idxs} | {showList (fun (u : STup) => showBool (I.fixed u.2.1 u.2.2).isNone) tups}"
 
+def cmdSeqDecode : P String := do
+  let I ← pSeqInst; let x ← pList pRat; pEnd
+  match I.decode x with
+  | .error e => pure (showErr e)
+  | .ok rs => pure s!"ok {showList (fun r => showList toString r) rs}"
+
+def cmdArcDecode : P String := do
+  let I ← pArcInst; let x ← pList pRat; pEnd
+  if !I.decodeAsserts x then pure "err:assert" else
+  pure s!"ok {showList (fun r => showList (fun (st : Nat × Rat) => s!"{st.1} {showRat st.2}") r) (I.decode x)}"
+
 def formCmds : List (String × P String) :=
   [("arc.data", cmdArcData), ("arc.qubo", cmdArcQubo), ("arc.lookup", cmdArcLookup),
    ("path.hist", cmdPathHist), ("path.data", cmdPathData), ("path.qubo", cmdPathQubo),
-   ("seq.data", cmdSeqData), ("seq.qubo", cmdSeqQubo), ("seq.lookup", cmdSeqLookup)]
+   ("seq.decode", cmdSeqDecode), ("arc.decode", cmdArcDecode), ("seq.data", cmdSeqData), ("seq.qubo", cmdSeqQubo), ("seq.lookup", cmdSeqLookup)]
 
 end Vrp.Drv
